@@ -58,6 +58,10 @@ def cases(tier, seed):
 
 
 CORPUS = [
+    # nested arguments: bits of different elements share their last index (a.0.1 / a.1.1)
+    {"kind": "script", "fns": [{"name": "f", "src": "def f(a: Tuple[Qint[2], Qint[2]]) -> bool:\n    return a[0] == a[1]\n"}], "sub": False},
+    {"kind": "script", "fns": [{"name": "f", "src": "def f(a: Qlist[Qint[2], 2], b: bool) -> bool:\n    return (a[0] > a[1]) ^ b\n"}], "sub": False},
+    {"kind": "script", "fns": [{"name": "g", "src": "def g(t: Tuple[Tuple[bool, bool], Tuple[bool, bool]]) -> bool:\n    return (t[0][0] and t[1][0]) or (t[0][1] and not t[1][1])\n"}], "sub": False},
     # optimised expression lists whose intermediates are defined through other intermediates (carry chains)
     {"kind": "script", "fns": [{"name": "f", "src": "def f(a: Qint[3], b: Qint[3]) -> bool:\n    return a + b > b\n"}], "sub": False},
     {"kind": "script", "fns": [{"name": "f", "src": "def f(a: Qint[3], b: Qint[3]) -> bool:\n    return a + b >= a\n"}], "sub": False},
